@@ -576,3 +576,27 @@ func VerifC01_OrOfTypes() {
 		zzverif.Reach("rejected")
 	}
 }
+
+// VerifC01_NullString: the STRING "null" (and its neighbours) under minLength
+// with every spelling of nullable: it is a string like any other - accepted
+// iff it is long enough.
+func VerifC01_NullString() {
+	zzverif.Expect("accepted", "rejected")
+	val := []string{"null", "nul", "nulls", "NULL", "true"}[zzverif.IntRange("value", 0, 4)]
+	n := zzverif.Digit("n")
+	rules := "minLength: " + string([]byte{n})
+	switch zzverif.IntRange("nullable", 0, 2) {
+	case 1:
+		rules += ", nullable: true"
+	case 2:
+		rules = "nullable: false, " + rules
+	}
+	err := New("s", `"`+val+`" // {`+rules+`}`).Check()
+	want := len(val) >= int(n-'0')
+	zzverif.Assert((err == nil) == want, "a string that spells a literal is a string: accepted iff it satisfies minLength")
+	if err == nil {
+		zzverif.Reach("accepted")
+	} else {
+		zzverif.Reach("rejected")
+	}
+}
